@@ -3,6 +3,7 @@
 package main
 
 import (
+	"net/url"
 	"bytes"
 	"encoding/base64"
 	"encoding/json"
@@ -64,7 +65,7 @@ var c20Dims = []struct {
 	{"mode", []string{"server", "proxy", "badmode"}}, {"redis", []string{"ok", "unreachable"}}, {"cookieName", []string{"false"}}, {"serverURL", []string{"bad"}},
 	{"domain", []string{"false"}}, {"defaultURL", []string{"bad"}}, {"secure", []string{"false"}}, {"sameSite", []string{"Bogus"}},
 	{"upstream", []string{"both", "iponly", "portonly", "port70000", "portneg"}}, {"shutdown", []string{"equal", "less"}}, {"alg", []string{"BOGUS", "ES256"}},
-	{"acr", []string{"supported", "legacy", "unsupported"}}, {"locale", []string{"supported", "unsupported"}}, {"redisSecret", []string{"flag", "env", "uri"}},
+	{"acr", []string{"supported", "legacy", "unsupported"}}, {"locale", []string{"supported", "unsupported"}}, {"redisSecret", []string{"flag", "env", "uri", "uri-enc", "uri-dup"}},
 	{"disco", []string{"noacr", "emptyacr", "nolocale", "noalg"}},
 }
 
@@ -138,6 +139,7 @@ func freePort() int {
 
 const redisPassword = "r3d1s-p4ssw0rd-s3cr3t"
 const clientSecretValue = "cl13nt-s3cr3t-v4lu3"
+const redisPasswordSpecial = "p@ss/w:rd#1%+x"
 
 func runC20(c *ctx) {
 	r := c.rng
@@ -153,6 +155,12 @@ func runC20(c *ctx) {
 	mrAuth, _ := miniredis.Run()
 	mrAuth.RequireAuth(redisPassword)
 	defer mrAuth.Close()
+	mrDup, _ := miniredis.Run()
+	mrDup.RequireUserAuth(redisPassword, redisPassword)
+	defer mrDup.Close()
+	mrSpecial, _ := miniredis.Run()
+	mrSpecial.RequireAuth(redisPasswordSpecial)
+	defer mrSpecial.Close()
 	idp := newFakeIdp()
 	defer idp.close()
 	disco := httptest.NewServer(http.HandlerFunc(func(w http.ResponseWriter, rq *http.Request) {
@@ -354,6 +362,14 @@ func runC20(c *ctx) {
 				settings["redis.uri"] = "redis://:" + redisPassword + "@" + mrAuth.Addr()
 				secretsGiven = append(secretsGiven, redisPassword)
 				redisAddr = ""
+			case "uri-enc": // a generated password with characters that must be percent-encoded inside a URI
+				settings["redis.uri"] = "redis://:" + url.QueryEscape(redisPasswordSpecial) + "@" + mrSpecial.Addr()
+				secretsGiven = append(secretsGiven, redisPasswordSpecial, url.QueryEscape(redisPasswordSpecial), url.PathEscape(redisPasswordSpecial))
+				redisAddr = ""
+			case "uri-dup": // user name equal to the password: the secret's text occurs twice in the URI
+				settings["redis.uri"] = "redis://" + redisPassword + ":" + redisPassword + "@" + mrDup.Addr()
+				secretsGiven = append(secretsGiven, ":"+redisPassword+"@")
+				redisAddr = ""
 			}
 			if redisAddr != "" {
 				settings["redis.address"] = redisAddr
@@ -467,7 +483,7 @@ func runC20(c *ctx) {
 			for _, sec := range secretsGiven {
 				if sec != "" && strings.Contains(logs, sec) {
 					switch sec {
-					case redisPassword:
+					case redisPassword, ":" + redisPassword + "@", redisPasswordSpecial, url.QueryEscape(redisPasswordSpecial), url.PathEscape(redisPasswordSpecial):
 						leak = "redis_password_via_" + sc.redisSecret
 					case key32:
 						leak = "encryption_key"
